@@ -103,6 +103,8 @@ Shape(i, a, b) ==
     [] i = 24 -> <<Node("cmap", <<SItem(100, a), SItem(101, b)>>), I(0)>>
     \* a dict argument whose key has two characters ('ab')
     [] i = 25 -> <<Node("dict", <<SItem(105, a)>>), b>>
+    \* a dict SUBCLASS whose constructor does not take the items (v = 1: a collections.defaultdict): it is a dict - rounded inside
+    [] i = 26 -> <<[t |-> "dict", v |-> 1, d |-> 1, c |-> <<SItem(100, a), SItem(101, b)>>], I(0)>>
     [] OTHER -> <<a, b>>
 \* sets of unhashable things do not exist, and a set holding equal members collapses: keep them distinct and hashable
 ValidShape(i, a, b) == (i \in {4, 5}) => ~EqT(a, b, FALSE)
